@@ -37,11 +37,11 @@ FORMS = ["gopher", "gophers", "gplus", "gpluss", "gdollar", "gbang", "http", "ht
 SEG_INJ = ["..", "../..", "../../..", ".", "", "...", "..;", "%2e%2e", "..%2f..", "\\..\\..", ".\\..", "\\\\x",
            "..\\", "a..b", "x.", "~", "..\x00", "\x00"]
 CHR_INJ = ["../", "/..", "./", "//", "\\..\\", ".\\", "\\\\", "\x00", "..", "/../", "/./", "\\", "%00", "%2e%2e%2f",
-           "%5c%5c", "/%2e%2e/"]
+           "%5c%5c", "/%2e%2e/", "/..|", "/..?", "..|/MAILDIR-MESSAGE/1", "/../rootx|/MAILDIR-MESSAGE/1"]
 SUFFIX = ["", "", "", "|/MBOX-MESSAGE/1", "|/MAILDIR-MESSAGE/1", "|/MBOX-MESSAGE/../1", "?../secret.txt", "?arg",
           "/box.mbox", "/inner.zip", "/inner.zip/x.txt", "/lnk", "/abs", "/abs2", "/../secret.txt", "|../secret.txt",
           "/box.mbox|/MBOX-MESSAGE/1", "/md|/MAILDIR-MESSAGE/1", "/s.sh", "/m.pyg", "/d/b.txt"]
-AIMS = ["../secret.txt", "../secret/inner.txt", "../rootx/file.txt", "../cwd/box.mbox", "../root/readme.txt",
+AIMS = ["..|/MAILDIR-MESSAGE/1", "..|", "..?x", "../rootx|/MAILDIR-MESSAGE/1", "../cwd/box.mbox|/MBOX-MESSAGE/1", "../secret.txt", "../secret/inner.txt", "../rootx/file.txt", "../cwd/box.mbox", "../root/readme.txt",
         "..", "../secret", "../rootx", "../..", "../box.mbox", "../inner.zip"]
 CWDS = ["cwd", "S", "root", "/"]
 
@@ -123,6 +123,10 @@ def _outside_spec(variant):
             [base + "arc.zip", "f", z],
         ] + sites.maildir_spec(base + "md", [tag + " md"])
     spec.append(["cwd/keep", "f", "x"])
+    # the root's own parent directory is a Maildir, and holds an mbox named like the root (targets of '/..|...' requests)
+    spec += [["new/1.msg", "f", "From: x@y\nSubject: %s parent maildir\n\nbody\n" % tag], ["cur/.keep", "f", ""], ["tmp/.keep", "f", ""],
+             ["rootx/new/1.msg", "f", "From: x@y\nSubject: %s sibling maildir\n\nbody\n" % tag], ["rootx/cur/.keep", "f", ""],
+             ["rootx/tmp/.keep", "f", ""]]
     return spec
 
 
@@ -131,7 +135,8 @@ BASES = ["/", "/readme.txt", "/dir", "/dir/file.txt", "/dir/sub/deep.txt", "/box
          "/arc.zip/lnk", "/arc.zip/abs", "/arc.zip/abs2", "/arc.zip/up", "/arc.zip/rel", "/arc.zip/s.sh",
          "/arc.zip/m.pyg", "/arc.zip/md", "/arc.zip/t.html.tal", "/run.sh", "/hello.pyg", "/t.html.tal", "/c.txt.gz",
          "/dir/inner.zip", "/dir/inner.zip/x.txt", "/1/dir", "/0/readme.txt", "", "readme.txt", "box.mbox",
-         "/secret.txt", "/rootx/file.txt", "/cwd/box.mbox", "/URL:http://x/../y", "URL:file://../secret.txt"]
+         "/secret.txt", "/rootx/file.txt", "/cwd/box.mbox", "/URL:http://x/../y", "URL:file://../secret.txt",
+         "/..|/MAILDIR-MESSAGE/1", "/..?", "/..|", "/dir/..|/MAILDIR-MESSAGE/1", "/../rootx|/MAILDIR-MESSAGE/1", "/dir/../..|/MAILDIR-MESSAGE/1"]
 
 
 ZIP_BASES = [b for b in BASES if ".zip" in b or ".mbox" in b or "md" in b] * 2
